@@ -126,6 +126,9 @@ func (f *Frame) run(args []string, entryReach string, entry *State) {
 		f.vals[p] = args[i]
 		f.params[p.Name()] = TV{args[i], p.Type()}
 	}
+	if f.parent == nil && f.vc.ifaceRecv != nil {
+		f.spec = f.vc.spec
+	}
 	f.findLoops()
 	f.collectDebug()
 	order := rpo(fn)
